@@ -81,11 +81,70 @@ Proof.
   destruct (a_cast_stored _ _ _ _ _ E') as (D1 & D2).
   split; [rewrite R_cast; exact D1|]. intros ty' Hne'. rewrite R_cast. now apply D2.
 Qed.
+(* ---- adoption: the holder's type is the type the object was adopted AS ----
+   The client creates an object under tag ty (ONew ty v: `T* p = new ...`; for the case alphabet's pseudo-tag 26 = "new PDerived owned
+   through a PBase*" the decoder says ty = static_ty 26 = 24, PBase) and hands it to holder i (assimilate).  After ANY earlier
+   history the holder then has exactly that type: value_cast<T> yields the value, every other type - in particular the class
+   derived from T that the object "really" is - a type error; copies of the holder and the other side of a swap agree. *)
+Lemma adopted_slot ops i ty v k :
+  okh H i = true -> okty ty = true -> k = Z.of_nat (length (cl (final H M tys ops))) ->
+  aslot (abs (final H M tys ((ops ++ [ONew ty v]) ++ [OAdopt i k]))) (hslot i) = Some (base_inplace, ty, norm ty v).
+Proof.
+  intros Hi Hty Hk. rewrite abs_snoc, abs_snoc.
+  set (a := abs (final H M tys ops)).
+  assert (Va : avalid a (hslot i) = true) by (apply avalid_final; exact Hi).
+  assert (Lk : Z.to_nat k = length (a_cl a)).
+  { subst k. rewrite Nat2Z.id. unfold a, abs. cbn [a_cl]. now rewrite map_length. }
+  assert (Kp : (0 <=? k) = true) by (apply Z.leb_le; subst k; lia).
+  cbn [sstep]. rewrite Hty. unfold a_new.
+  set (a1 := aset_cl (a_cl a ++ [(ty, norm ty v)]) a).
+  rewrite Hi, Kp. cbn [andb]. unfold a_adopt.
+  assert (V1 : avalid a1 (hslot i) = true) by exact Va.
+  rewrite V1.
+  assert (N : nth_error (a_cl a1) (Z.to_nat k) = Some (ty, norm ty v)).
+  { unfold a1, aset_cl. cbn [a_cl]. rewrite Lk. rewrite nth_error_app2 by lia. rewrite Nat.sub_diag. reflexivity. }
+  rewrite N. rewrite aslot_aset_eq by exact V1. reflexivity.
+Qed.
+
+Theorem adopted_as_static_type ops i ty v k :
+  okh H i = true -> okty ty = true -> k = Z.of_nat (length (cl (final H M tys ops))) ->
+  let hist := (ops ++ [ONew ty v]) ++ [OAdopt i k] in
+  let s := final H M tys hist in
+  err s = false /\
+  fst (cast s (hslot i) ty) = Some (norm ty v) /\
+  (forall ty', ty' <> ty -> fst (cast s (hslot i) ty') = None) /\
+  (forall j c, okh H j = true -> j <> i ->
+     c = OAssign j i \/ c = OConsCopy j i \/ c = OSwap i j \/ c = OSwap j i ->
+     let s' := final H M tys (hist ++ [c]) in
+     err s' = false /\ fst (cast s' (hslot j) ty) = Some (norm ty v) /\
+     (forall ty', ty' <> ty -> fst (cast s' (hslot j) ty') = None)).
+Proof.
+  intros Hi Hty Hk hist s.
+  pose proof (adopted_slot ops i ty v k Hi Hty Hk) as E. fold hist in E. fold s in E.
+  split; [apply (final_good H M tys hist)|].
+  destruct (a_cast_stored _ _ _ _ _ E) as (C1 & C2).
+  split; [rewrite R_cast; exact C1|]. split; [intros ty' Hne; rewrite R_cast; now apply C2|].
+  intros j c Hj Hne Hc s'.
+  split; [apply (final_good H M tys (hist ++ [c]))|].
+  assert (E' : aslot (abs s') (hslot j) = Some (base_inplace, ty, norm ty v)).
+  { unfold s'. rewrite abs_snoc. fold s. set (a := abs s) in *.
+    assert (Vi : avalid a (hslot i) = true) by (apply avalid_final; exact Hi).
+    assert (Vj : avalid a (hslot j) = true) by (apply avalid_final; exact Hj).
+    pose proof (hslot_inj j i Hj Hi Hne) as Hs.
+    destruct Hc as [-> | [-> | [-> | ->]]]; cbn [sstep]; unfold a_src; rewrite ?Hi, ?Hj; cbn [andb].
+    - rewrite aslot_aset_eq by exact Vj. exact E.
+    - rewrite aslot_aset_eq by exact Vj. exact E.
+    - rewrite aslot_aset_eq by (now rewrite avalid_aset). exact E.
+    - rewrite aslot_aset_neq by (intros X; apply Hs; now symmetry).
+      rewrite aslot_aset_eq by exact Vj. exact E. }
+  destruct (a_cast_stored _ _ _ _ _ E') as (D1 & D2).
+  split; [rewrite R_cast; exact D1|]. intros ty' Hne'. rewrite R_cast. now apply D2.
+Qed.
 End Every.
 
 (* every tag of the harness's table satisfies the hypothesis `okty` - in particular the sizes between one and two words and the
    two translation units' types of the same spelling (18..20 / 21..23) *)
-Example every_tag_ok : forallb okty [0; 1; 2; 3; 4; 5; 6; 7; 8; 9; 10; 11; 12; 13; 14; 15; 16; 17; 18; 19; 20; 21; 22; 23] = true /\ okty 24 = false /\ okty (-1) = false.
+Example every_tag_ok : forallb okty [0; 1; 2; 3; 4; 5; 6; 7; 8; 9; 10; 11; 12; 13; 14; 15; 16; 17; 18; 19; 20; 21; 22; 23; 24; 25] = true /\ okty 26 = false /\ okty (-1) = false.
 Proof. vm_compute. repeat split; reflexivity. Qed.
 
 (* ---- types of the same spelling in two translation units (tags 18..20 and 21..23) ----
@@ -138,4 +197,29 @@ Example twelve_bytes_instance :
   err s = false /\ size_of 12 = 12 /\
   fst (cast s (hslot 0) 12) = Some 345 /\ fst (cast s (hslot 1) 12) = Some 345 /\ fst (cast s (hslot 2) 12) = Some 346 /\
   fst (cast s (hslot 2) 7) = None /\ fst (cast s (hslot 0) 14) = None.
+Proof. vm_compute. repeat split; reflexivity. Qed.
+
+(* ---- a derived object adopted through a pointer to its polymorphic base (tags 24 PBase, 25 PDerived : PBase; pseudo-tag 26) ----
+   `new(26, v)` of the case alphabet is `PBase* p = new PDerived(v)`; the decoder turns it into ONew (static_ty 26) v = ONew 24 v.
+   Holder 0 adopts it, holder 1 is copy-constructed from holder 0, holder 2 is assigned from it, the map's name 0 (pseudo-type 26:
+   a NotifiedValue<PBase> whose creator returns a new PDerived) parses 9, a second such object is added to the map under name 1 and
+   re-added: everywhere the type is PBase (24) - PDerived (25) is refused - and the values are the adopted ones; every object is
+   destroyed exactly once (no error, nothing leaked).  Last conjuncts: the case as the harness sees it - decoded ops, and the two typed
+   reads of `new(26,5), assimilate(0,0), cast(0,24), cast(0,25)`. *)
+Example adopted_derived_instance :
+  static_ty 26 = 24 /\ static_ty 24 = 24 /\ static_ty 25 = 25 /\ okty (static_ty 26) = true /\ size_of 24 = 16 /\ size_of 25 = 24 /\
+  stored_inplace 24 = false /\ stored_inplace 25 = false /\ instr 24 = true /\ instr 25 = true /\
+  decode_ops 10 [7; 26; 5; 9; 0; 0; 12; 0; 24; 12; 0; 25] = [ONew 24 5; OAdopt 0 0; OCast 0 24; OCast 0 25] /\
+  (let s := final 3 2 [24; 24] [ONew 24 5; OAdopt 0 0; OConsCopy 1 0; OAssign 2 0; OSetVal 0 6; OParse 0 9 1; ONew 24 7; OMapAdd 1 0; OMapAddSame 1] in
+   err s = false /\
+   map (fun i => fst (cast s (hslot i) 24)) [0; 1; 2] = [Some 6; Some 5; Some 5] /\
+   map (fun i => fst (cast s (hslot i) 25)) [0; 1; 2] = [None; None; None] /\
+   map (fun n => fst (cast s (mslot 3 n) 24)) [0; 1] = [Some 9; Some 7] /\
+   map (fun n => fst (cast s (mslot 3 n) 25)) [0; 1] = [None; None] /\
+   err (finish 3 2 s) = false /\ leaked (finish 3 2 s) = false /\ map e_dc (led (finish 3 2 s)) = [1; 1; 1; 1; 1]) /\
+  (* a PDerived stored BY VALUE (typed constructor with T = PDerived) is a PDerived: read through PBase is refused *)
+  (let s := final 1 0 [] [OConsVal 0 25 8] in fst (cast s (hslot 0) 25) = Some 8 /\ fst (cast s (hslot 0) 24) = None) /\
+  run_case [0; 1; 0; 7; 26; 5; 9; 0; 0; 12; 0; 24; 12; 0; 25] =
+    [-1; 0; 0; -1;  1; 24; 5; 0;  1; 0; 0; 1; 0;     24; 5; 0; 0;  0;  1; 0; 0; 1; 0;    1; 5;  24; 5; 0; 0;  0;  1; 0; 0; 1; 0;    0; 0;  24; 5; 0; 0;  0;  1; 0; 0; 1; 0;
+     0; 1; 1; 0; 0].
 Proof. vm_compute. repeat split; reflexivity. Qed.
